@@ -95,6 +95,10 @@ func genEvalCache(g *gen) {
 			g.emit("S cage 8")
 			g.emit("S cq %s %s 1", c, gr)
 		}
+		if i%12 == 1 && i < 400 {
+			// many requests at once through the real evaluator coordinator's forwarder: one reply each, rightly named
+			g.emit("S cburst %d %s %s", int(g.pick(3, 8, 24, 40)), hexName(clusters[g.intn(len(clusters))]), strings.Join([]string{hexName("c"), hexName("g"), hexName("b c"), hexName("nope")}, ","))
+		}
 		if i%12 == 9 && i < 400 {
 			// two requests for one group while its entry has expired, storage has changed, and the evaluation of the first is
 			// still waiting for storage: BOTH answers are the group's status now, none is the expired entry
